@@ -198,6 +198,7 @@ def prop_C15(ctx, tier):
     run.require('C15-E1', 'scenario outcomes', n, 300)
     run.exhaustive = {'flavours': 3, 'policies': 6, 'bound presence': 8, 'scenarios': ['absent', 'fresh', 'expired(ttl=Some)']}
     S.check_stats_shapes(run, ctx)
+    S.check_registry_in_place(run, ctx, 'C15-S3', ('cachelito_core::stats_registry::',), 2)
     W.check_stats_registration(run, ctx)
     W.check_wrapper_no_direct_stats(run, ctx)
     from . import rules_l as L
@@ -435,6 +436,7 @@ def prop_C12(ctx, tier):
               'clear callback under the name attribute or the function name inside a Once that dominates the lookup. W2: the clear callback empties store and queue of its own function only.',
               ASSUME_COMMON)
     S.check_registry_tables(run, ctx)
+    S.check_registry_in_place(run, ctx, 'C12-S3', ('cachelito_core::invalidation::InvalidationRegistry::',), 15)
     n = W.check_registration(run, ctx, rules=('C12',))
     run.require('C12-W1', 'global/async fixtures', n, 200)
     n2 = W.check_callbacks(run, ctx, rules=('C12',))
